@@ -24,7 +24,7 @@ SPAN_PROV = {
     'input::IoInput::span': ['Range{start: arg2.start, end: arg2.end}'],
     'input::MappedInput::slice': ['slice(arg1.0, Range{start: arg2.start.0, end: arg2.end.0})'],
     'input::MappedInput::slice_from': ['slice_from(arg1.0, RangeFrom{start: arg2.start.0})'],
-    'input::MappedInput::span': ['new(context(arg1.2), Range{start: end(arg1.2), end: end(arg1.2)})', 'new(context(arg1.2), Range{start: start(call(arg1.1, tuple{0: next_maybe(?, ?).0}).1), end: unwrap_or_else(arg2.end.1, closure)})'],
+    'input::MappedInput::span': ['new(context(arg1.2), Range{start: end(arg1.2), end: end(arg1.2)})', 'new(context(arg1.2), Range{start: start(call(arg1.1, tuple{0: next_maybe(arg1.0, arg2.start.0).0}).1), end: start(call(arg1.1, tuple{0: next_maybe(arg1.0, arg2.start.0).0}).1)})', 'new(context(arg1.2), Range{start: start(call(arg1.1, tuple{0: next_maybe(arg1.0, arg2.start.0).0}).1), end: unwrap_or_else(arg2.end.1, closure)})'],
     'input::MappedInput::span_from': ['new(context(arg1.2), Range{start: unwrap_or_else(map(next_maybe(arg1.0, arg2.start.0), closure), closure), end: end(arg1.2)})'],
     'input::MappedSpan::slice': ['slice(arg1.0, arg2)'],
     'input::MappedSpan::slice_from': ['slice_from(arg1.0, arg2)'],
@@ -34,7 +34,7 @@ SPAN_PROV = {
     'input::WithContext::slice_from': ['slice_from(arg1.0, arg2)'],
     'input::WithContext::span': ['new(arg1.1, Range{start: start(span(arg1.0, arg2)), end: end(span(arg1.0, arg2))})'],
     'input::WithContext::span_from': ['new(arg1.1, Range{start: start(span_from(arg1.0, arg2)), end: end(span_from(arg1.0, arg2))})'],
-    'stream::IterInput::span': ['new(context(arg1), Range{start: end(arg1), end: end(arg1)})', 'new(context(arg1), Range{start: start(next(arg2.start.0).0.1), end: unwrap_or_else(arg2.end.2, closure)})'],
+    'stream::IterInput::span': ['new(context(arg1), Range{start: end(arg1), end: end(arg1)})', 'new(context(arg1), Range{start: start(next(arg2.start.0).0.1), end: start(next(arg2.start.0).0.1)})', 'new(context(arg1), Range{start: start(next(arg2.start.0).0.1), end: unwrap_or_else(arg2.end.2, closure)})'],
     'stream::Stream::span': ['Range{start: arg2.start, end: arg2.end}'],
     'stream::Stream::span_from': ['Range{start: arg2.start, end: AddWithOverflow(len(arg1.tokens), len(arg1.iter)).0}'],
 }
